@@ -15,13 +15,13 @@ checks = {
    ref="5/C02", text="Exploration, exhaustive over a 26x26x16 boundary lattice x 9 register patterns per mnemonic, plus 2*10^5 (quick) / 10^7 (thorough) random operand triples. Operand values outside the lattice are sampled, not covered.",
    note="Trusted: the RV32IM table in harness/ref.go (evalIns), written from the ISA manual."),
  "C03": dict(engine="diffmon", tech=DIFF+"; squashed-instruction tracking from decode/flush events (a store performed by a squashed instruction is a violation by itself)", ref="5/C03",
-   text="Exploration over generated branch-shadow skeletons (taken and not taken, early and late resolving, all shadow instruction kinds) on MVP-4..8 at all parallelism levels; the evidence counts how many shadow instructions were actually executed / written back before the flush.",
+   text="Exploration over generated branch-shadow skeletons (taken and not taken, early and late resolving, all shadow instruction kinds) on MVP-4..8 at all parallelism levels; the shadow family runs on all 81 configurations in both tiers; the evidence counts how many shadow instructions were actually executed / written back before the flush.",
    note="As C01. MVP-6.0/6.1 write wrong-path register results by design (the README introduces the guarantee with 6.2); that and the cache-hit shadow store are known findings."),
  "C04": dict(engine="diffmon", tech=DIFF+"; each configuration repeated 5-20 times to sample map-order-dependent dispatch schedules", ref="5/C04",
    text="Exploration over register-pressure programs (chains, fans, WAW/WAR pairs, mixed-latency producers); the per-instruction lockstep oracle sees a wrong operand even when a later overwrite hides it from the final state.",
    note="As C01. The renaming gap of MVP-6.3+ (two writers of one register in flight) is a known finding; power on those variants is limited to programs without that trigger."),
  "C05": dict(engine="diffmon", tech=DIFF+" on memory-walk programs larger than every cache", ref="5/C05",
-   text="Exploration over strided walks, ping-pong sets, store/evict/reload and random sub-word accesses in 8-16 KB memories on MVP-3..8; every loaded value and the final memory image are compared.",
+   text="Exploration over strided walks, ping-pong sets, store/evict/reload and random sub-word accesses in 8-16 KB memories on MVP-3..8 (quick: the least and the most parallel configuration of each variant; thorough: all); every loaded value and the final memory image are compared.",
    note="As C01."),
  "C07": dict(engine="diffmon", tech="runtime monitoring of termination by a logical tick budget hooked into every run loop; panics recovered per case, fatal runtime errors confined to worker processes; error-path family expects an error value", ref="5/C07",
    text="Exploration: 'terminates' is decided as bounded progress (8 x 309 x (executed + length + 64) loop iterations), over stress programs aimed at the drain/flush/pending-fetch machinery and over programs that reach a defined error.",
@@ -50,7 +50,7 @@ checks = {
 }
 checks.update({
  "C06": dict(engine="msimon", tech="per-cycle invariant monitor on hooked state (snapshot of protocol states, L1/L3 lines, lock counters, commands at every cycle boundary) + bounded-exhaustive exploration of request/flush interleavings on a pipeline-less rig of the real cache controllers", ref="5/C06",
-   text="Invariants I1-I5 asserted on every cycle of a few hundred (quick) to 10^4 (thorough) programs on 1-4 cores, and on every step of every rig sequence of up to 3 (quick) / 4 (thorough) read/write/flush requests from 2-3 cores on 2 lines (bounded-exhaustive for that alphabet).",
+   text="Invariants I1-I5 asserted on every cycle of a few hundred (quick) to 10^4 (thorough) programs on 1-4 cores, and on every step of every rig sequence of up to 3 (quick) / 4 (thorough) read/write/flush requests from 2-3 cores on 2 lines (bounded-exhaustive for that alphabet), plus 1920 (quick) / 60000 (thorough) seeded random rig histories of 8-24 overlapping requests from 3-4 cores.",
    note="Snapshots are taken at cycle boundaries only (tick sites), not mid-cycle. The rig serialises requests per core as the execute units do."),
  "C08": dict(engine="detmon", tech="repeat/isolation monitor: digests of (verdict, cycles, registers, memory) over repeated, reused, concurrent and other-process runs with seeded iterator yields; plus the Go race detector over concurrent machines with reports classified by racing statement", ref="5/C08",
    text="Exploration: 150 (quick) / 3000 (thorough) cases x 12-24 configurations x (8-30 repetitions + reuse + concurrency + 2 child processes); race detector over 10/40 concurrent batches.",
